@@ -70,7 +70,7 @@ SpecAttrs(e, o) == [t |-> e.t, c |-> 0, sz |-> 0, tgt |-> "", mt |-> -1, ns |-> 
 (* does an observed node satisfy an expected one?  J is the set of aspects   *)
 (* the property under check constrains: "type", "content", "target",         *)
 (* "perm", "mtime" (existence is always compared)                            *)
-AllAspects == {"type", "content", "target", "perm", "mtime"}
+AllAspects == {"type", "content", "target", "perm", "mtime"}      \* ("dmtime", directory mtimes, is judged only where the property says nothing changes: C10)
 NodeMatchesJ(exp, obs, J) ==
   /\ (exp.t = "none") = (obs.t = "none")
   /\ "type" \in J => exp.t = obs.t
@@ -78,6 +78,7 @@ NodeMatchesJ(exp, obs, J) ==
   /\ ("target" \in J /\ exp.t = "lnk" /\ obs.t = "lnk") => exp.tgt = obs.tgt
   /\ ("perm" \in J /\ exp.perm # -1 /\ exp.t = obs.t) => exp.perm = obs.perm
   /\ ("mtime" \in J /\ exp.mt # -1 /\ exp.t = "reg" /\ obs.t = "reg") => exp.mt = obs.mt
+  /\ ("dmtime" \in J /\ exp.mt # -1 /\ exp.t = "dir" /\ obs.t = "dir") => exp.mt = obs.mt      \* (dry runs: directories keep their mtimes too)
 NodeMatches(exp, obs) == NodeMatchesJ(exp, obs, AllAspects)
 TreeMatchesJ(exp, obs, J) == \A p \in Paths : NodeMatchesJ(exp[p], obs[p], J)
 TreeMatches(exp, obs) == TreeMatchesJ(exp, obs, AllAspects)
